@@ -28,12 +28,12 @@ type ArgSpec struct {
 }
 
 type KernelCase struct {
-	AllOrders bool // fork over map iteration orders
+	AllOrders          bool // fork over map iteration orders
 	SchemaMarshalsTrue bool // json.Marshal of a *Schema value returns the bytes "true" (empty schemas only)
-	Name   string
-	Func   string // name of the overlay function
-	Native any    // the native function (for replay)
-	Args   []ArgSpec
+	Name               string
+	Func               string // name of the overlay function
+	Native             any    // the native function (for replay)
+	Args               []ArgSpec
 }
 
 type kernelArg struct {
@@ -53,6 +53,13 @@ func (w *Worker) RunKernel(kc *KernelCase, property string) *SkelResult {
 		m.JSONMarshalHook = func(m *sx.Machine, args []sx.Value) (sx.Value, bool) {
 			x := args[0].(sx.Iface)
 			if x.T != nil && x.T.String() == "*"+m.P.Path+".Schema" {
+				if pv, ok := x.V.(*sx.Value); ok && pv != nil {
+					if st, ok := (*pv).(sx.Struct); ok {
+						if idx := sx.FieldIndex(m.P.NamedType("Schema"), "Title"); idx >= 0 && st[idx] == jsonschema.VerifFailTitle {
+							return sx.Tuple{[]sx.Value(nil), m.NewError("json: unsupported type: func()")}, true
+						}
+					}
+				}
 				return sx.Tuple{[]sx.Value{uint64('t'), uint64('r'), uint64('u'), uint64('e')}, sx.Iface{}}, true
 			}
 			return nil, false
@@ -279,8 +286,10 @@ func (cc *CheckCtx) RunKernels(r *Report, cases []*KernelCase) {
 	}
 }
 
-func strArg(n int, alphabet string) ArgSpec { return ArgSpec{Kind: "string", Len: n, Alphabet: alphabet} }
-func conArg(v any) ArgSpec                  { return ArgSpec{Kind: "concrete", Value: v} }
+func strArg(n int, alphabet string) ArgSpec {
+	return ArgSpec{Kind: "string", Len: n, Alphabet: alphabet}
+}
+func conArg(v any) ArgSpec { return ArgSpec{Kind: "concrete", Value: v} }
 
 func init() {
 	Checks["C17"] = func(cc *CheckCtx, r *Report) {
@@ -329,6 +338,11 @@ func init() {
 				}
 			}
 		}
+		// array indices on the long array (12 members): every 1..3-character segment over digits, sign, underscore, letters
+		for n := 1; n <= 3; n++ {
+			cases = append(cases, &KernelCase{Name: fmt.Sprintf("K2.v0.anyOf.index-len%d", n), Func: "VerifKernelDeref", Native: jsonschema.VerifKernelDeref,
+				Args: []ArgSpec{conArg(0), conArg("anyOf"), conArg(true), strArg(n, "0129_+-xXbo ")}})
+		}
 		// symbolic first segment (short), no second segment
 		for n := 0; n <= 3; n++ {
 			cases = append(cases, &KernelCase{Name: fmt.Sprintf("K2.seg1len%d", n), Func: "VerifKernelDeref", Native: jsonschema.VerifKernelDeref,
@@ -340,7 +354,7 @@ func init() {
 		cc.RunValidateFamily(r, ptr, VOptions{ValidatePaths: true})
 		r.Bounds = append(r.Bounds, "K3: for every subschema location of a maximal document of each draft (same key pool plus keys needing percent-encoding) the reference '#'+percent-encoded pointer is resolved natively and Validate is compared with the independent RFC 6901 resolver on a symbolic instance; 16 invalid or dangling pointers per draft must make Resolve fail")
 		r.Outside = append(r.Outside, "percent-decoding itself is net/url's (native, concrete strings); pointers with more than two symbolic segments")
-		r.Bounds = append(r.Bounds, fmt.Sprintf("K2: dereferenceJSONPointer on a maximal schema of either draft shape (every subschema-bearing keyword populated, map keys incl. \"\", /, ~, ~0, ~1, %%, space, non-ASCII, digits, -, 01, +1): first segment = every JSON field name and some non-keywords (enumerated), second segment = all strings of length <= %d over {a,0,1,9,~,-,+,%%,n,o,t,space}; result must be the subschema RFC 6901 designates, else an error", maxS))
+		r.Bounds = append(r.Bounds, fmt.Sprintf("K2: dereferenceJSONPointer on a maximal schema of either draft shape (every subschema-bearing keyword populated, map keys incl. \"\", /, ~, ~0, ~1, %%, space, non-ASCII, digits, -, 01, +1): first segment = every JSON field name and some non-keywords (enumerated), second segment = all strings of length <= %d over {a,0,1,9,~,-,+,%%,n,o,t,space}, and for the 12-member array anyOf all index strings of length <= 3 over {0,1,2,9,_,+,-,x,X,b,o,space}; result must be the subschema RFC 6901 designates, else an error", maxS))
 		r.Bounds = append(r.Bounds, fmt.Sprintf("K1: escape/unescape/parse on all byte strings (bytes 0..127) of length <= %d and all pointers over the alphabet {a,0,1,~,/,-,+} of length <= %d, executed from the real SSA incl. the strings.Replacer contract model built from the package initialiser's arguments", maxK, maxP))
 	}
 }
@@ -358,7 +372,12 @@ func init() {
 			cases = append(cases, &KernelCase{Name: fmt.Sprintf("order.len%d", n), Func: "VerifKernelPropertyOrder", Native: jsonschema.VerifKernelPropertyOrder, AllOrders: true, SchemaMarshalsTrue: true,
 				Args: []ArgSpec{boolArg(), boolArg(), boolArg(), boolArg(), strArg(n, "abcdz")}})
 		}
+		for n := 0; n <= 2; n++ {
+			cases = append(cases, &KernelCase{Name: fmt.Sprintf("order-after-failed-marshal.len%d", n), Func: "VerifKernelPropertyOrderAfterFailure", Native: jsonschema.VerifKernelPropertyOrderAfterFailure, AllOrders: true, SchemaMarshalsTrue: true,
+				Args: []ArgSpec{boolArg(), boolArg(), boolArg(), boolArg(), strArg(n, "abcdz")}})
+		}
 		cc.RunKernels(r, cases)
+		r.Bounds = append(r.Bounds, "the same kernel after a Marshal that failed half-way (order lists of length <= 2): nothing of the failed call may be visible (sync.Pool modelled as returning any object put back earlier or a fresh one)")
 		r.Bounds = append(r.Bounds, fmt.Sprintf("real SSA of orderedProperties.MarshalJSON and basicChecks: properties = every subset of {a,b,c,d} (symbolic presence), PropertyOrder = every sequence of length <= %d over {a,b,c,d,z} (z names no property; duplicates allowed), every map iteration order; json.Marshal of the (empty) property schemas is stubbed to the bytes `true`", maxO))
 		r.Outside = append(r.Outside, "determinism of the rest of Marshal (encoding/json sorts map keys; its body is not encoded); nested schemas with their own PropertyOrder beyond one level")
 	}
